@@ -119,6 +119,17 @@ def _menu():
                 m["n_batch"] = nb0
             if m["trial"] == "ghf":
                 m["trial"] = "noci"  # the independent SCF that hands C12 its converged trial knows RHF/UHF/NOCI trials only
+            r3 = random.Random(121300 + k)
+            if m.get("corner") is None and r3.random() < 0.14:
+                # the hand-coded CI trials of production runs
+                if m["wt"] == "restricted" and m["trial"] == "rhf":
+                    m["trial"], m["corner"] = "cisd", "cisd_trial"
+                elif m["wt"] == "unrestricted" and m["trial"] in ("uhf", "noci"):
+                    m["trial"], m["corner"] = "ucisd", "ucisd_trial"
+                if m.get("corner") in ("cisd_trial", "ucisd_trial") and m["kind"] == "cross" and r3.random() < 0.7:
+                    # the cell in which the returned population is the measured one: independent estimator applicable
+                    m["entry"] = r3.choice(["ad_nosr", "ad_nosr_norot"])
+                    m["n_ene_blocks"], m["n_sr_blocks"] = 1, 1
         out.append(m)
     return out
 
@@ -178,8 +189,8 @@ def converge_trial(s):
 
     trial = s.trial
     kind = type(trial).__name__
-    if kind == "noci":
-        return True
+    if kind in ("noci", "cisd", "ucisd"):
+        return True  # no orbital relaxation for these trials (optimize is the identity)
     h1 = np.asarray(s.ham_data_raw["h1"])
     chol = np.asarray(s.ham_data_raw["chol"])
     wd = dict(s.wave_data)
@@ -219,13 +230,23 @@ def fock_estimator(cfg, s, pd, wave_data):
     from ..models import fock
 
     kind = type(s.trial).__name__
-    if kind not in ("rhf", "uhf", "noci"):
+    if kind not in ("rhf", "uhf", "noci", "cisd", "ucisd"):
         return None
     norb, nelec = cfg["norb"], tuple(cfg["nelec"])
     sec = fock.Sector(norb, nelec)
     raw = s.ham_data_raw
     H = sec.hamiltonian(float(np.asarray(raw["h0"])), np.asarray(raw["h1"]), np.asarray(raw["chol"]))
-    psi = fock.trial_state(sec, kind, wave_data)
+    if kind == "cisd":
+        # hand-coded CI trials are given as routines only: their state is the bra their overlap routine defines
+        import jax.numpy as jnp
+
+        psi = fock.extract_bra(sec, lambda w: s.trial._calc_overlap_restricted(jnp.array(w), wave_data), restricted=True, seed=cfg["ham_seed"] % (2**31))
+    elif kind == "ucisd":
+        import jax.numpy as jnp
+
+        psi = fock.extract_bra(sec, lambda u, d: s.trial._calc_overlap(jnp.array(u), jnp.array(d), wave_data), restricted=False, seed=cfg["ham_seed"] % (2**31))
+    else:
+        psi = fock.trial_state(sec, kind, wave_data)
     if isinstance(pd["walkers"], list):
         ups, dns = np.asarray(pd["walkers"][0]), np.asarray(pd["walkers"][1])
     else:
@@ -409,7 +430,8 @@ def _execute_cross(cfg, ctx):
                 # (Fock-space mixed estimator of the Hamiltonian as supplied)
                 want3 = fock_estimator(cfg, s, pd_a, wd)
                 if want3 is not None:
-                    if not _eq(e_a, want3, 1e-8):
+                    # the hand-coded CISD energy contracts one term in single precision on purpose
+                    if not _eq(e_a, want3, 2e-6 if cfg["trial"] == "cisd" else 1e-8):
                         _bad(ctx, "sampler.energy_is_not_weighted_capped_mean_of_true_local_energies", site_a, cfg, energy=_num(e_a), independent=want3, library_definition=want2)
                     ctx.probe("independent_estimator_checked", 1)
             ctx.probe("estimator_identity_checked", 1)
